@@ -29,7 +29,7 @@ func (c12) Cases(tier string) int {
 }
 
 func (c12) Rule() string {
-	return "histories of 3-12 requests over 4 query texts (3 plannable, 1 invalid) and per-history consistent keys (the sha256 of the text or a client-chosen key), each request being {text only, text+key, key only}, with idle periods longer than 4x the TTL (150 ms) between some requests; a cached gateway (AutomaticQueryPlanCache) is driven through GetPlans+Execute next to an uncached twin over the same services; every response must be what the Lean cache model says for the measured history (plan of which text / planner error / PersistedQueryNotFound) and, when a plan, the data must equal the twin's for that text; NotFound must contact no service; a request without key must come back keyed by the sha256 of its text; every third case additionally fires 8 concurrent identical misses and then a key-only hit (race detector on); histories with a gap in the ambiguous zone (TTL/5 .. 4xTTL) are discarded; non-trivial = at least one key-only request; distinct = distinct history; two of the texts carry white space around the document (the text sent is the text hashed)"
+	return "histories of 3-12 requests over 4 query texts (3 plannable, 1 invalid) and per-history consistent keys (the sha256 of the text or a client-chosen key), each request being {text only, text+key, key only}, with idle periods longer than 4x the TTL (150 ms) between some requests; a cached gateway (AutomaticQueryPlanCache) is driven through GetPlans+Execute next to an uncached twin over the same services; every response must be what the Lean cache model says for the measured history (plan of which text / planner error / PersistedQueryNotFound) and, when a plan, the data must equal the twin's for that text; NotFound must contact no service; a request without key must come back keyed by the sha256 of its text; every third case additionally fires 8 concurrent identical misses and then a key-only hit (race detector on); histories with a gap in the ambiguous zone (TTL/5 .. 4xTTL) are discarded; non-trivial = at least one key-only request; distinct = distinct history; two of the texts carry white space around the document (the text sent is the text hashed); one case per run uses a lifetime of 3.7 s with an idle period of 3.2 s before a key-only request (an entry used within its lifetime is still there)"
 }
 
 var cacheTexts = []string{`{ me { firstName lastName } }`, `{ allUsers { firstName nick } }`, `{ topPhoto { url likes } }`, `{ nope }`,
@@ -97,7 +97,46 @@ func batchKeys(c *Ctx, r *rand.Rand) []Failure {
 	return nil
 }
 
+// longTTL: a cache lifetime that is not a whole number of seconds (3.7 s), an entry used once, an idle period of 3.2 s
+// (shorter than the lifetime, longer than the lifetime cut to whole seconds), then a request that carries only the
+// key: the entry was used within its lifetime and must still be there. Inconclusive (skipped) when the machine made
+// the idle period longer than the lifetime minus a margin.
+func longTTL(c *Ctx) CaseResult {
+	res := CaseResult{ID: "corpus:long-ttl-fraction-of-a-second", Key: "long-ttl", Nontrivial: true, Features: []string{"long-ttl"}}
+	const ttl = 3700 * time.Millisecond
+	store := GenStore(rand.New(rand.NewSource(5)), false)
+	cached, err := NewFed(FixedFed(), store, gateway.WithQueryPlanCache(gateway.NewAutomaticQueryPlanCache().WithCacheTTL(ttl)))
+	if err != nil {
+		return res
+	}
+	twin, _ := NewFed(FixedFed(), store)
+	text := cacheTexts[0]
+	want := twin.Run(text, "", nil, 5*time.Second)
+	t0 := time.Now()
+	cached.CacheKey = shaHex(text)
+	first := cached.Run(text, "", nil, 5*time.Second)
+	if first.Err != nil || first.PlanErr {
+		return res
+	}
+	time.Sleep(3200 * time.Millisecond)
+	elapsed := time.Since(t0)
+	if elapsed > ttl-300*time.Millisecond {
+		res.Skipped = "idle-period-too-long-on-this-machine"
+		return res
+	}
+	second := cached.Run("", "", nil, 5*time.Second)
+	if second.PlanErr || Canon(second.Data) != Canon(want.Data) {
+		res.Fails = append(res.Fails, Failure{Channel: "L0.cache-evicted-early", Classifier: "unclassified",
+			What:  fmt.Sprintf("a cache lifetime of %v: an entry used %v ago is gone (a request with only its key is not answered like the cache-less gateway answers the text)", ttl, elapsed.Round(10*time.Millisecond)),
+			Input: map[string]interface{}{"ttl_ms": 3700, "idle_ms": 3200, "text": text}, Expected: want.Data, Observed: map[string]interface{}{"data": second.Data, "error": ErrString(second.Err)}})
+	}
+	return res
+}
+
 func (c12) Run(c *Ctx, i int) CaseResult {
+	if i == 1 {
+		return longTTL(c)
+	}
 	if i%6 == 5 {
 		if bf := batchKeys(c, c.Rand(i+72000000)); len(bf) > 0 {
 			return CaseResult{ID: fmt.Sprintf("gen:%d", i), Nontrivial: true, Fails: bf}
